@@ -392,8 +392,9 @@ HLconvert(int32 aid, int32 block_length, int32 number_blocks)
     uint16 special_tag;                                 /* special version of this tag */
     int32  file_id;                                     /* file ID for the access record */
     uint8  local_ptbuf[16];
-    int32  old_posn; /* position in the access element */
-    int    ret_value = SUCCEED;
+    int32  old_posn;               /* position in the access element */
+    int    info_allocated = FALSE; /* special info allocated by this call? */
+    int    ret_value      = SUCCEED;
 
     /* clear error stack */
     HEclear();
@@ -466,6 +467,7 @@ HLconvert(int32 aid, int32 block_length, int32 number_blocks)
     access_rec->special_info = malloc((uint32)sizeof(linkinfo_t));
     if (!access_rec->special_info)
         HGOTO_ERROR(DFE_NOSPACE, FAIL);
+    info_allocated = TRUE;
 
     /* fill in special info struct */
     info                = (linkinfo_t *)access_rec->special_info;
@@ -517,9 +519,12 @@ HLconvert(int32 aid, int32 block_length, int32 number_blocks)
 
 done:
     if (ret_value == FAIL) { /* Error condition cleanup */
-        if (access_rec != NULL) {
+        /* The access record belongs to the caller and is still registered under
+           'aid': never release it here.  Only drop the special info this call
+           allocated itself (an element that is already special keeps its own). */
+        if (access_rec != NULL && info_allocated) {
             free(access_rec->special_info);
-            HIrelease_accrec_node(access_rec);
+            access_rec->special_info = NULL;
         }
     }
 
